@@ -876,3 +876,57 @@ Proof.
     cbn [existsb]. apply Bool.orb_false_r.
   - change (some_rules (None :: rules)) with (some_rules rules). cbn [existsb orb]. exact IH.
 Qed.
+
+(* findRelatedParents over several changed objects: some object triggers *)
+Lemma existsb_const_false {A} (l : list A) : existsb (fun _ => false) l = false.
+Proof. induction l as [|a l IH]; [reflexivity | exact IH]. Qed.
+
+Lemma existsb_swap {A B} (f : A -> B -> bool) (la : list A) (lb : list B) :
+  existsb (fun a => existsb (f a) lb) la = existsb (fun b => existsb (fun a => f a b) la) lb.
+Proof.
+  induction la as [|a la IH]; cbn [existsb].
+  - symmetry. apply existsb_const_false.
+  - rewrite IH. clear IH. induction lb as [|b lb IHb]; [reflexivity|].
+    cbn [existsb]. rewrite <- IHb.
+    destruct (f a b), (existsb (f a) lb), (existsb (fun a0 => f a0 b) la); reflexivity.
+Qed.
+
+Definition rule_triggers (c : ccfg) (parent : json) (r : rule) (o : json) : bool :=
+  match lookup_res c (r_api_version r) (r_resource r) with
+  | Some kc => match matches_related_rule (p_namespaced c) parent o (Some r) (ch_kind kc) with
+               | Ok true => true | _ => false end
+  | None => false
+  end.
+
+Lemma parent_woken_by_rules c parent rules l :
+  parent_woken_by c parent rules l = existsb (fun r => existsb (rule_triggers c parent r) l) (some_rules rules).
+Proof.
+  unfold parent_woken_by. induction rules as [|[r|] rules IH]; [reflexivity| |].
+  - change (some_rules (Some r :: rules)) with (r :: some_rules rules). cbn [existsb]. rewrite IH. f_equal.
+    unfold rule_triggers. destruct (lookup_res c (r_api_version r) (r_resource r)); [reflexivity|].
+    symmetry. apply existsb_const_false.
+  - change (some_rules (None :: rules)) with (some_rules rules). cbn [existsb orb]. exact IH.
+Qed.
+
+Lemma parent_woken_by_exists c parent rules l :
+  parent_woken_by c parent rules l = existsb (fun o => triggers c parent (some_rules rules) o) l.
+Proof. rewrite parent_woken_by_rules. apply existsb_swap. Qed.
+
+(* onRelatedUpdate wakes the parent iff the old or the new state triggers *)
+Lemma woken_by_update_spec c parent rules old new :
+  woken_by_update c parent rules old new =
+  triggers c parent (some_rules rules) old || triggers c parent (some_rules rules) new.
+Proof. unfold woken_by_update. rewrite parent_woken_by_exists. cbn [existsb]. rewrite Bool.orb_false_r. reflexivity. Qed.
+
+(* an object that is in the related map on the wire wakes its parent when it is updated, whatever it becomes
+   (and, symmetrically, whatever it was when it ends up in the map) *)
+Theorem C15_update_wakes_lemma c k parent rules m :
+  parent_has_ns c parent -> cache_kinds c k ->
+  get_related_objects c k parent rules = Ok m ->
+  forall o, In o (wire_objects (get_ns parent) m) ->
+  forall other, woken_by_update c parent rules o other = true /\ woken_by_update c parent rules other o = true.
+Proof.
+  intros Hns Hck H o Hin other.
+  destruct (C15_selected_implies_trigger_lemma c k parent rules m Hns Hck H o Hin) as [_ [Ht _]].
+  rewrite !woken_by_update_spec, Ht. split; [reflexivity | apply Bool.orb_true_r].
+Qed.
